@@ -2,25 +2,31 @@ import CanvasProofs.Lemmas.C20
 /-! # C20 lemmas: from the extracted access table to the trace discipline -/
 namespace Canvas.C20
 
-/-- the protection the table assigns to a variable (none: undisciplined or atomic-only) -/
+/-- the protection the table assigns to a variable (none: undisciplined) -/
 def protOf (v : VarFact) : Option Prot :=
   if v.readOnly then some .readOnly
   else if v.onceDisciplined then v.onceOf.map Prot.byOnce
   else if v.lockDisciplined then v.lockOf.map (fun m => Prot.guarded (Tok.mu m))
+  else if v.atomicDisciplined then some .atomicOnly
   else none
 
-/-- the synchronisation context recorded for a site really holds at event `k` of thread `t`.
-Sites inside a once body are not plain events of the model (they are the `body` of the once). -/
+/-- the synchronisation context recorded for a site really holds at the plain read/write event `k` of
+thread `t`. Sites inside a once body are not plain events of the model (they are the `body` of the
+once) and atomic sites are `atomicOp` events. -/
 structure Site.HoldsAt (s : Site) (tr : Trace) (t : Tid) (k : Nat) : Prop where
   lock : ∀ m, s.sync = .lock m → heldBy tr t (Tok.mu m) k = true
   after : ∀ o, s.sync = .afterOnce o → ∃ k', k' < k ∧ tr[k']? = some (t, Ev.onceDo o)
   notOnce : ∀ o, s.sync ≠ .once o
   notAtomic : s.sync ≠ .atomic
 
-/-- the trace's accesses to variable `v` are instances of the table's sites -/
+/-- the trace's accesses to variable `v` are instances of the table's sites (reads of a variable that
+is never written are not listed in the table and need no site) -/
 structure Realises (body : String → List String) (v : VarFact) (tr : Trace) : Prop where
-  rd : ∀ (k : Nat) (t : Tid), tr[k]? = some (t, Ev.read v.qname) → ∃ s, s ∈ v.reads ∧ s.HoldsAt tr t k
+  rd : ∀ (k : Nat) (t : Tid), tr[k]? = some (t, Ev.read v.qname) →
+    v.readOnly = true ∨ ∃ s, s ∈ v.reads ∧ s.HoldsAt tr t k
   wr : ∀ (k : Nat) (t : Tid), tr[k]? = some (t, Ev.write v.qname) → ∃ s, s ∈ v.writes ∧ s.HoldsAt tr t k
+  atom : ∀ (k : Nat) (t : Tid), tr[k]? = some (t, Ev.atomicOp v.qname) →
+    ∃ s, (s ∈ v.writes ∨ s ∈ v.reads) ∧ s.sync = .atomic
   bd : ∀ o, v.qname ∈ body o → ∃ s, s ∈ v.writes ∧ s.sync = .once o
 
 theorem disciplined_obeys (body : String → List String) (v : VarFact) (p : Prot) (tr : Trace)
@@ -29,16 +35,24 @@ theorem disciplined_obeys (body : String → List String) (v : VarFact) (p : Pro
   by_cases hro : v.readOnly = true
   · simp only [hro, if_true, Option.some.injEq] at hp
     subst hp
-    have hw : v.writes = [] := by
-      simp only [VarFact.readOnly, Bool.and_eq_true, List.isEmpty_iff] at hro; exact hro.1
-    refine ⟨?_, ?_, ?_, ?_, ?_, ?_⟩
+    simp only [VarFact.readOnly, Bool.and_eq_true, List.isEmpty_iff, List.all_eq_true] at hro
+    obtain ⟨⟨hw, _⟩, hrd⟩ := hro
+    refine ⟨?_, ?_, ?_, ?_, ?_, ?_, ?_, ?_, ?_⟩
     · intro k t tok _ h; cases h
     · intro k t o _ h; cases h
     · intro k t tok _ h; cases h
     · intro k t o h; obtain ⟨s, hs, _⟩ := hr.wr k t h; rw [hw] at hs; cases hs
     · intro k t h; obtain ⟨s, hs, _⟩ := hr.wr k t h; rw [hw] at hs; cases hs
     · intro o ho; obtain ⟨s, hs, _⟩ := hr.bd o ho; rw [hw] at hs; cases hs
-  · simp only [hro, Bool.false_eq_true, if_false] at hp
+    · intro k t _ h; cases h
+    · intro k t _ h; cases h
+    · intro k t h
+      obtain ⟨s, hs, hsa⟩ := hr.atom k t h
+      rcases hs with hs | hs
+      · rw [hw] at hs; cases hs
+      · have := hrd s hs; simp [hsa] at this
+  · have hro' := hro
+    simp only [hro, Bool.false_eq_true, if_false] at hp
     by_cases hon : v.onceDisciplined = true
     · simp only [hon, if_true] at hp
       cases hoo : v.onceOf with
@@ -53,16 +67,17 @@ theorem disciplined_obeys (body : String → List String) (v : VarFact) (p : Pro
           have := hws s hs
           simp only [Site.inOnce, beq_iff_eq] at this
           exact hh.notOnce o this
-        refine ⟨?_, ?_, ?_, ?_, ?_, ?_⟩
+        refine ⟨?_, ?_, ?_, ?_, ?_, ?_, ?_, ?_, ?_⟩
         · intro k t tok _ h; cases h
         · intro k t o' h hb
           cases hb
-          obtain ⟨s, hs, hh⟩ := hr.rd k t h
-          have := hrs s hs
-          simp only [Site.inOrAfterOnce, Bool.or_eq_true, beq_iff_eq] at this
-          rcases this with h1 | h1
-          · exact absurd h1 (hh.notOnce o)
-          · exact hh.after o h1
+          rcases hr.rd k t h with h0 | ⟨s, hs, hh⟩
+          · exact absurd h0 hro'
+          · have := hrs s hs
+            simp only [Site.inOrAfterOnce, Bool.or_eq_true, beq_iff_eq] at this
+            rcases this with h1 | h1
+            · exact absurd h1 (hh.notOnce o)
+            · exact hh.after o h1
         · intro k t tok _ h; cases h
         · intro k t o' h; exact (wrAbs k t h).elim
         · intro k t h; exact (wrAbs k t h).elim
@@ -71,6 +86,13 @@ theorem disciplined_obeys (body : String → List String) (v : VarFact) (p : Pro
           have := hws s hs
           simp only [Site.inOnce, beq_iff_eq] at this
           rw [hso] at this; cases this; rfl
+        · intro k t _ h; cases h
+        · intro k t _ h; cases h
+        · intro k t h
+          obtain ⟨s, hs, hsa⟩ := hr.atom k t h
+          rcases hs with hs | hs
+          · have := hws s hs; simp [Site.inOnce, hsa] at this
+          · have := hrs s hs; simp [Site.inOrAfterOnce, hsa] at this
     · simp only [hon, Bool.false_eq_true, if_false] at hp
       by_cases hld : v.lockDisciplined = true
       · simp only [hld, if_true] at hp
@@ -80,13 +102,14 @@ theorem disciplined_obeys (body : String → List String) (v : VarFact) (p : Pro
           rw [hlo] at hp; simp only [Option.map_some, Option.some.injEq] at hp; subst hp
           simp only [VarFact.lockDisciplined, hlo, Bool.and_eq_true, List.all_eq_true] at hld
           obtain ⟨hws, hrs⟩ := hld
-          refine ⟨?_, ?_, ?_, ?_, ?_, ?_⟩
+          refine ⟨?_, ?_, ?_, ?_, ?_, ?_, ?_, ?_, ?_⟩
           · intro k t tok h hb
             cases hb
-            obtain ⟨s, hs, hh⟩ := hr.rd k t h
-            have := hrs s hs
-            simp only [Site.underLock, beq_iff_eq] at this
-            exact hh.lock m this
+            rcases hr.rd k t h with h0 | ⟨s, hs, hh⟩
+            · exact absurd h0 hro'
+            · have := hrs s hs
+              simp only [Site.underLock, beq_iff_eq] at this
+              exact hh.lock m this
           · intro k t o _ h; cases h
           · intro k t tok h hb
             cases hb
@@ -101,6 +124,41 @@ theorem disciplined_obeys (body : String → List String) (v : VarFact) (p : Pro
             have := hws s hs
             simp only [Site.underLock, beq_iff_eq] at this
             rw [hso] at this; cases this
-      · simp [hld] at hp
+          · intro k t _ h; cases h
+          · intro k t _ h; cases h
+          · intro k t h
+            obtain ⟨s, hs, hsa⟩ := hr.atom k t h
+            rcases hs with hs | hs
+            · have := hws s hs; simp [Site.underLock, hsa] at this
+            · have := hrs s hs; simp [Site.underLock, hsa] at this
+      · simp only [hld, Bool.false_eq_true, if_false] at hp
+        by_cases had : v.atomicDisciplined = true
+        · simp only [had, if_true, Option.some.injEq] at hp
+          subst hp
+          simp only [VarFact.atomicDisciplined, Bool.and_eq_true, List.all_eq_true, beq_iff_eq] at had
+          obtain ⟨⟨_, hws⟩, hrs⟩ := had
+          have rdAbs : ∀ (k : Nat) (t : Tid), tr[k]? = some (t, Ev.read v.qname) → False := by
+            intro k t h
+            rcases hr.rd k t h with h0 | ⟨s, hs, hh⟩
+            · exact absurd h0 hro'
+            · exact hh.notAtomic (hrs s hs)
+          have wrAbs : ∀ (k : Nat) (t : Tid), tr[k]? = some (t, Ev.write v.qname) → False := by
+            intro k t h
+            obtain ⟨s, hs, hh⟩ := hr.wr k t h
+            exact hh.notAtomic (hws s hs)
+          refine ⟨?_, ?_, ?_, ?_, ?_, ?_, ?_, ?_, ?_⟩
+          · intro k t tok _ h; cases h
+          · intro k t o _ h; cases h
+          · intro k t tok _ h; cases h
+          · intro k t o _ h; cases h
+          · intro k t _ h; cases h
+          · intro o ho
+            obtain ⟨s, hs, hso⟩ := hr.bd o ho
+            have := hws s hs
+            rw [hso] at this; cases this
+          · intro k t h; exact (rdAbs k t h).elim
+          · intro k t h; exact (wrAbs k t h).elim
+          · intro k t _; rfl
+        · simp [had] at hp
 
 end Canvas.C20
